@@ -31,6 +31,9 @@ def inline(rng, depth=0, nolink=False):
         elif k < 0.52:
             t = rng.choice(["`", "``", "```"])
             parts.append(t + rng.choice(["", " "]) + rng.choice(["code", "a`b", "*x*", "&amp;", "a\nb", " ", "  ", "``", "<b>", "\\"]) + rng.choice(["", " "]) + rng.choice([t, t, t, "`", ""]))
+        elif k < 0.535:
+            t = rng.choice(["%", "%", "%%", "%%%"])
+            parts.append(t + rng.choice(["", " "]) + inline(rng, depth + 1, nolink) + rng.choice(["", " "]) + rng.choice([t, t, t, "%", ""]))
         elif k < 0.62 and not nolink:
             lab = inline(rng, depth + 1, True)
             form = rng.random()
@@ -191,6 +194,8 @@ def gen_cfg(rng, require=None, forbid=""):
     for c in (require or ""):
         if c not in cfg:
             cfg.append(c)
+    if "8" not in forbid and rng.random() < 0.15:
+        cfg.insert(rng.randrange(len(cfg) + 1), "8")      # generic pair '%' with nested inline parsing (harness plugin)
     return "".join(cfg) or "-"
 
 
